@@ -391,9 +391,10 @@ def c16(tier, seed, t0):
 @register("C02")
 def c02(tier, seed, t0):
     from harness import enforce as H, violations as V
-    n = int(os.environ.get("VERIF_N", 0)) or (10 if tier == "quick" else 120)
-    res = R.run_pool(H.HNAME, H.chunks(tier, n), 170 if tier == "quick" else 2700, seed, tier,
-                     extra=dict(sample_rate=0.15 if tier == "quick" else 0.03, chunk_time=20 if tier == "quick" else 60))
+    n = int(os.environ.get("VERIF_N", 0)) or (10 if tier == "quick" else 40)
+    res = R.run_pool(H.HNAME, H.chunks(tier, n), 170 if tier == "quick" else 3000, seed, tier,
+                     extra=dict(sample_rate=0.15 if tier == "quick" else 0.03, chunk_time=30 if tier == "quick" else 90,
+                                max_paths=60 if tier == "quick" else 120), shuffle=False)
     agg = R.merge(res)
     bounds = dict(program_instances=n, operators={k: sorted(v[1]) for k, v in sorted(V.OPS.items())},
                   sites="<= 4 sites per operator and program, spread over the file; the site is a solver-chosen index (one class per site)",
